@@ -14,6 +14,45 @@ def _names(e: ast.AST) -> Set[str]:
     return {x.id for x in ast.walk(e) if isinstance(x, ast.Name)}
 
 
+# ------------------------------------------------------------------------------------ shared hidden state
+def class_level_mutables(idx: Index, rep: Report, rule: str, prefixes) -> None:
+    """A container created in a class body is one object for all instances (and for all problems of the process). If
+    methods fill it through `self`, it is a hidden cache: what one plan / walker / problem computed leaks into the
+    next. Zero instances on the pinned tree; an inline fixture keeps the rule alive."""
+    def scan(cls_node: ast.ClassDef, cname: str):
+        out = []
+        cand = {}
+        for st in cls_node.body:
+            tg = v = None
+            if isinstance(st, ast.Assign) and len(st.targets) == 1 and isinstance(st.targets[0], ast.Name):
+                tg, v = st.targets[0].id, st.value
+            elif isinstance(st, ast.AnnAssign) and isinstance(st.target, ast.Name) and st.value is not None:
+                tg, v = st.target.id, st.value
+            if tg and (isinstance(v, (ast.Dict, ast.List, ast.Set)) or (isinstance(v, ast.Call) and norm(v.func) in ("dict", "list", "set", "OrderedDict", "defaultdict"))):
+                cand[tg] = st
+        for name, st in cand.items():
+            recv = (f"self.{name}", f"cls.{name}", f"{cname}.{name}")
+            for m in [x for x in cls_node.body if isinstance(x, (ast.FunctionDef, ast.AsyncFunctionDef))]:
+                for x in walk_no_nested(m):
+                    if (isinstance(x, ast.Assign) and any(isinstance(t, ast.Subscript) and norm(t.value) in recv for t in x.targets)) or (isinstance(x, ast.Call) and isinstance(x.func, ast.Attribute) and x.func.attr in ("append", "add", "update", "setdefault", "extend", "pop", "clear", "remove") and norm(x.func.value) in recv):
+                        out.append((name, st, m.name, x))
+        return out
+
+    n = 0
+    for ci in idx.classes.values():
+        if not ci.module.name.startswith(tuple(prefixes)):
+            continue
+        n += 1
+        for name, st, mname, x in scan(ci.node, ci.name):
+            rep.bad(rule, f"{ci.name}.{name} is not a class-level container filled through instances", ci.loc(st), construct=f"{ci.name}.{name} = {norm(st.value)[:30]} mutated in {mname}: {norm(x)[:60]}", detail="the container is shared by every instance: a value memoised for one plan / problem is served to another one with different objects, so the result depends on what was computed before in the same process", function=ci.qualname)
+    fixture = ast.parse("class P:\n    _memo = {}\n    def f(self, k):\n        self._memo[k] = 1\n").body[0]
+    if not scan(fixture, "P"):
+        raise AnalysisError(f"{rule}: positive fixture no longer matches")
+    rep.ok(rule, f"{n} classes: no class-level container is filled through an instance", "unified_planning:1", construct=f"{n} classes")
+    rep.count("classes_scanned", n)
+    rep.require_min(rule, "classes_scanned", 3)
+
+
 # ------------------------------------------------------------------------------------ C27
 def c27(idx: Index, rep: Report, tier: str) -> None:
     """Every expanded effect contributes its condition, value *and target* to the read set whatever its kind: a
@@ -42,6 +81,33 @@ def c27(idx: Index, rep: Report, tier: str) -> None:
             rep.check(not bad, rule, f"the effect's {key} is added to the read set for every effect", f.loc(node.ast), construct=f"{key}: {'under `' + norm(bad[0].ast)[:50] + '`' if bad else 'unconditional'}", detail="" if not bad else f"effects for which `{norm(bad[0].ast)}` does not hold do not record their {key} as read: two instances that increase / decrease the same fluent, or a later reader of it, are left unordered and some linearisation of the partial-order plan is invalid", function=f.qualname)
     rep.count("read_set_contributions", n)
     rep.require_min(rule, "read_set_contributions", 3)
+    class_level_mutables(idx, rep, "C27.4 T11 no-class-level-cache", ("unified_planning.plans",))
+    # reader keys and writer keys are normalised the same way
+    rule5 = "C27.5 T7 reader-and-writer-keys-same-normal-form"
+    from ..dataflow import reaching_defs, def_value
+
+    rd = reaching_defs(cfg)
+
+    def shape(e):
+        out = []
+        while isinstance(e, ast.Call):
+            out.append(call_name(e))
+            e = e.args[0] if e.args else None
+        return out
+
+    reader = [c.args[0] for nd, c in cfg_nodes_with_call(cfg, "add") if c.args and isinstance(c.args[0], ast.Call)]
+    writer = []
+    for nd in cfg.nodes:
+        a = nd.ast
+        if nd.kind == "stmt" and isinstance(a, ast.Assign) and isinstance(a.targets[0], ast.Subscript) and isinstance(a.targets[0].slice, ast.Name):
+            for d in rd[nd].get(a.targets[0].slice.id, ()):
+                v = def_value(d, a.targets[0].slice.id)
+                if isinstance(v, ast.Call) and any(isinstance(x, ast.Call) and call_name(x) == "substitute" for x in ast.walk(v)):
+                    writer.append(v)
+    rs = {tuple(shape(e)) for e in reader if "substitute" in shape(e)}
+    ws = {tuple(shape(e)) for e in writer}
+    ok = bool(rs) and bool(ws) and rs == ws
+    rep.check(ok, rule5, "the ground fluents an instance reads and the ones it writes are normalised by the same calls", f.loc(), construct=f"read keys: {sorted(rs)}; written keys: {sorted(ws)}", detail="" if ok else "the table of last modifiers and the table of readers are keyed by different normal forms of a ground fluent (`cell(1 + 1)` vs `cell(2)`): a reader does not find the writer of the fluent it reads and is left unordered", function=f.qualname)
 
 
 # ------------------------------------------------------------------------------------ C28
@@ -196,8 +262,51 @@ def keyword_attribute_crossing(rep: Report, rule: str, funcs: List[FuncInfo]) ->
     return n
 
 
+def sibling_calls_forward_same_fields(rep: Report, rule: str, f: FuncInfo, callees) -> int:
+    """Within one function, the sibling calls add_effect / add_increase_effect / add_decrease_effect that copy an
+    effect message field by field forward the same fields of it (a call that omits one — `forall` — loses it)."""
+    groups: Dict[int, List[Tuple[ast.Call, frozenset, str]]] = {}
+    for c in walk_no_nested(f.node):
+        if not (isinstance(c, ast.Call) and call_name(c) in callees):
+            continue
+        fields: Dict[str, Set[str]] = {}
+        for a in list(c.args) + [k.value for k in c.keywords]:
+            if isinstance(a, ast.Attribute) and isinstance(a.value, ast.Name):
+                fields.setdefault(a.value.id, set()).add(a.attr)
+        if not fields:
+            continue
+        var, attrs = max(fields.items(), key=lambda kv: len(kv[1]))
+        if len(attrs) < 2:
+            continue
+        groups.setdefault(len(c.args) - len(attrs), []).append((c, frozenset(attrs), var))
+    n = 0
+    for _, calls in groups.items():
+        if len(calls) < 2:
+            continue
+        union = frozenset().union(*[a for _, a, _ in calls])
+        for c, attrs, var in calls:
+            n += 1
+            missing = sorted(union - attrs)
+            rep.check(not missing, rule, f"{f.short}: {call_name(c)}(…) forwards the same fields of `{var}` as its siblings", f.loc(c), construct=f"{call_name(c)}({', '.join(sorted(attrs))})" + ("" if not missing else f" without {missing}"), detail="" if not missing else f"the other calls of this function copy {missing} from the message as well: here it is dropped, so an effect of this kind is read back without it (a quantified effect loses its variables)", function=f.qualname)
+    return n
+
+
 def c20(idx: Index, rep: Report, tier: str) -> None:
     atom_constructors_agree(idx, rep, "C20.5 T7 atom-constructors-agree")
+    k = sibling_calls_forward_same_fields(rep, "C20.8 T17 sibling-calls-forward-same-fields", idx.func("grpc.proto_reader.ProtobufReader._convert_action"), ("add_effect", "add_increase_effect", "add_decrease_effect"))
+    rep.count("effect_copy_calls", k)
+    rep.require_min("C20.8 T17 sibling-calls-forward-same-fields", "effect_copy_calls", 6)
+    # a delay is signed: "has a delay" is `!= 0`, never a one-sided comparison
+    rule7 = "C20.7 T16 delay-compared-with-zero-by-equality"
+    n7 = 0
+    for f in [x for x in idx.all_funcs() if x.module.name in ("unified_planning.grpc.proto_writer", "unified_planning.grpc.proto_reader")]:
+        for c in walk_no_nested(f.node):
+            if isinstance(c, ast.Compare) and len(c.ops) == 1 and any(isinstance(x, ast.Attribute) and x.attr == "delay" for x in (c.left, c.comparators[0])) and any(isinstance(x, ast.Constant) and x.value == 0 for x in (c.left, c.comparators[0])):
+                n7 += 1
+                ok = isinstance(c.ops[0], (ast.Eq, ast.NotEq))
+                rep.check(ok, rule7, f"{f.short}: a delay is compared with zero by (in)equality", f.loc(c), construct=norm(c), detail="" if ok else "a negative delay (`end - 3`) falls on the no-delay side of a one-sided comparison: it is written without its delay and read back as the bare timepoint", function=f.qualname)
+    rep.count("delay_tests", n7)
+    rep.require_min(rule7, "delay_tests", 1)
     rule = "C20.6 T21 keyword-field-crossing"
     funcs = [f for f in idx.all_funcs() if f.module.name in ("unified_planning.grpc.proto_reader", "unified_planning.grpc.proto_writer")]
     n = keyword_attribute_crossing(rep, rule, funcs)
@@ -1650,6 +1759,7 @@ def c14(idx: Index, rep: Report, tier: str) -> None:
             reads = [x for x in walk_no_nested(m.node) if isinstance(x, ast.Attribute) and x.attr == "memoization" and norm(x.value) == "self"]
             rep.check(not reads, rule_b, f"{ci.name}.{m.name} does not consult self.memoization", m.loc(reads[0]) if reads else m.loc(), construct=norm(reads[0]) if reads else m.name, detail="" if not reads else "the simplifier's memoization outlives a walk: a method that branches on its content returns different results (or fails / does not fail) depending on which expressions were simplified before", function=m.qualname)
     rep.count("simplifier_methods", k)
+    class_level_mutables(idx, rep, "C14.8 T11 no-class-level-cache", ("unified_planning.model.walkers", "unified_planning.model.expression", "unified_planning.model.fnode", "unified_planning.environment"))
 
 
 # ------------------------------------------------------------------------------------ C16
